@@ -144,6 +144,33 @@ pub fn c16(j: &mut Judge, v: &StepView) {
             }
         }
     }
+    // conversely, every order the reference model has on the book after this request is
+    // answered, with the remaining amounts the model gives it
+    if v.out.accepted() && v.exp.verdict == Verdict::Accept && v.exp.alts.len() == 1 {
+        let e = &v.exp.alts[0];
+        for (id, a) in &e.asks {
+            match w.query(&serde_json::to_vec(&wire::q_get_ask(id)).unwrap()).map(|b| wire::decode_ask(&b)) {
+                Ok(Ok(got)) if &got == a => {}
+                other => j.violate(
+                    Prop::C16,
+                    "open-order-not-reported",
+                    &format!("get_ask:{}", v.req.kind()),
+                    format!("ask {} should be on the book as {:?} after this request; the query gives {:?}", id, a, other),
+                ),
+            }
+        }
+        for (id, b) in &e.bids {
+            match w.query(&serde_json::to_vec(&wire::q_get_bid(id)).unwrap()).map(|x| wire::decode_bid(&x)) {
+                Ok(Ok(got)) if &got == b => {}
+                other => j.violate(
+                    Prop::C16,
+                    "open-order-not-reported",
+                    &format!("get_bid:{}", v.req.kind()),
+                    format!("bid {} should be on the book as {:?} after this request; the query gives {:?}", id, b, other),
+                ),
+            }
+        }
+    }
     if w.store.map != before_bytes || w.store.writes != before_writes {
         j.violate(Prop::C16, "query-modified-state", "any", "storage changed while only queries ran".into());
     }
